@@ -203,6 +203,7 @@ pub fn c12() -> PropDef {
         check: check_c12,
         adjust: no_adjust,
         assumptions: COMMON_ASSUMPTIONS,
+        tiny: no_tiny,
     }
 }
 
@@ -522,6 +523,7 @@ pub fn c15() -> PropDef {
         check: check_c15,
         adjust: adjust_c15,
         assumptions: COMMON_ASSUMPTIONS,
+        tiny: no_tiny,
     }
 }
 
